@@ -4,7 +4,7 @@
 def nontrivial(d):
     # something can be saved: an interval other than None occurs and at least one step / walk is attempted
     s = d["sched"]
-    return any(a[0] in ("New", "Set") and a[1] > 0 for a in s) and any(a[0] in ("Step", "Walk", "WalkErr") for a in s)
+    return any(a[0] in ("New", "Set", "Relist") and a[1] > 0 for a in s) and any(a[0] in ("Step", "Walk", "WalkErr") for a in s)
 
 
 # ---- bin/selftest: one recorded field corrupted -> the trace spec must name the clause at exactly that line
@@ -34,7 +34,8 @@ CORRUPT = {
     "column_shorter": lambda ev: _corrupt(ev, lambda ns: ns[0].update(lmin=ns[0]["lmin"] - 1), ["SameLength"]),
 }
 
-RULE = ("cases = every maximal schedule over {set_save_interval(None|1|2|3), initial save, step, failing step} reached by TLC "
+RULE = ("cases = every maximal schedule over {construction with the units' own / the consist constructor's / the simulation's "
+        "interval, re-listed units + re-applied interval, set_save_interval(None|1|2|3), initial save, step, failing step} reached by TLC "
         "in the bounded History configs (x consist make-up), each run against LocomotiveSimulation, ConsistSimulation, "
         "SetSpeedTrainSim and SpeedLimitTrainSim, + seeded whole runs through walk()/walk_timed_path() with random consist, "
         "interval (None..10), length and failing step; distinct = distinct case descriptors (sha256); non-trivial = a "
@@ -76,7 +77,9 @@ GROUP = dict(
                   dict(cfg="MCHistory_fault_skip_gen.cfg", expect=["Propagated"]),
                   dict(cfg="MCHistory_fault_gate_next.cfg", expect=["SameLength", "SameStep", "SavedCount", "Entries"]),
                   dict(cfg="MCHistory_fault_save_on_err.cfg", expect=["SavedCount", "Entries"]),
-                  dict(cfg="MCHistory_fault_step_first.cfg", expect=["SavedCount", "Entries", "StepIndex"])],
+                  dict(cfg="MCHistory_fault_step_first.cfg", expect=["SavedCount", "Entries", "StepIndex"]),
+                  # Consist::set_save_interval returning early when the consist already has the value
+                  dict(cfg="MCHistory_fault_con_early_return.cfg", expect=["Propagated"])],
     corrupt=CORRUPT, selftest_cases=30,
     vacuity=lambda r: (None if not r["models"] else          # --replay of a single case: nothing to balance
                        "no action was recorded" if r["stats"].get("ops", 0) == 0 else
